@@ -40,6 +40,18 @@ def build_device(d: dict):
     return (VirtualDevice if virt else Device)(**kw)
 
 
+def build_valid_device(case, V):
+    """the device of a val/mc/auto case satisfies the documented constraints by
+    construction of the generator: failing to construct it is a violation of the
+    'valid parameter combinations construct' clause, not a harness failure"""
+    try:
+        return build_device(case["device"])
+    except Exception as e:  # noqa: BLE001
+        V.append(Violation("device:valid-params-rejected",
+                           f"valid parameter combination raises {type(e).__name__}: {str(e)[:200]}", case))
+        return None
+
+
 def build_register(case, layout=None):
     import pulser
 
@@ -362,7 +374,10 @@ def run_val(case):
     run = dict(kind="val", entry=case["entry"], built=True)
     with warnings.catch_warnings():
         warnings.simplefilter("ignore")
-        dev = build_device(case["device"])
+        dev = build_valid_device(case, V)
+        if dev is None:
+            run.update(built=False, why="device", outcome=[97])
+            return run, V
         entry = case["entry"]
         try:
             layout = RegisterLayout(np.array(case["layout"], dtype=float)) if case["layout"] is not None else None
@@ -501,8 +516,11 @@ def run_mc(case):
     V: list[Violation] = []
     with warnings.catch_warnings():
         warnings.simplefilter("ignore")
-        dev = build_device(case["device"])
         run = dict(kind="mc")
+        dev = build_valid_device(case, V)
+        if dev is None:
+            run.update(outcome=[96], validate=[96], nodev=True)
+            return run, V
         try:
             reg = pulser.Register.max_connectivity(case["n"], dev, spacing=case["spacing"])
         except NotImplementedError:
@@ -552,7 +570,10 @@ def run_auto(case):
     d = case["device"]
     with warnings.catch_warnings():
         warnings.simplefilter("ignore")
-        dev = build_device(d)
+        dev = build_valid_device(case, V)
+        if dev is None:
+            run.update(gen=[96], validate=[96], auto="nodev", nodev=True)
+            return run, V
         reg = pulser.Register({i: np.array(c, dtype=float) for i, c in zip(case["ids"], case["coords"])})
         seeds = [[float(a) for a in p] for p in reg.sorted_coords]
         run["seeds"] = seeds
